@@ -103,7 +103,7 @@ def digest(v):
 
 def strip_nulls(v):
     if isinstance(v, dict):
-        return {k: strip_nulls(x) for k, x in v.items() if x is not None}
+        return {k: strip_nulls(x) for k, x in v.items() if x is not None and x != [] and x != {}}
     if isinstance(v, list):
         return [strip_nulls(x) for x in v]
     return v
@@ -118,6 +118,8 @@ def subsumes(big, small, path=""):
             if x is None:
                 continue
             if k not in big:
+                if x == [] or x == {}:
+                    continue        # an empty collection that is skipped on write and defaulted on read is the same value
                 return f"{path}/{k}"
             r = subsumes(big[k], x, f"{path}/{k}")
             if r:
